@@ -1,11 +1,11 @@
 #!/bin/bash
-# proc6.sh Cxx check1 check2 ... : verify the round-6 seed in its worktree, copy it to seeded/Cxx-6, run checks on a snapshot
+# ROUND=<n> tools/seedgen/process_seed.sh Cxx check1 check2 ... : verify the seed in its worktree /tmp/seed<n>-Cxx, copy it to
+# seeded/Cxx-<n>, run the given checks against a snapshot with the change applied (tools/seed_snap.sh)
 id=$1; shift
 R=${ROUND:-6}; W=/tmp/seed$R-$id
 cd /verif
 [ -f $W/SEED/patch.diff ] || { echo "$id: no SEED/patch.diff"; exit 1; }
 echo "##### $id verify: $(tools/seed_verify.sh $W 2>&1 | tr '\n' ' ' | cut -c1-400)"
 d=seeded/$id-$R; mkdir -p $d
-cp $W/SEED/patch.diff $W/SEED/meta.json $d/; for f in README.md demo.rs demo.sh demo.dsl ub_demo.rs; do [ -f $W/SEED/$f ] && cp $W/SEED/$f $d/; done
-ls $W/SEED | grep -vE "patch.diff|meta.json|README.md|demo.rs|demo.sh|demo.dsl|ub_demo.rs" | sed "s/^/   extra file: /"
+cp -r $W/SEED/. $d/      # every file the agent saved (demo data files included)
 tools/seed_snap.sh /verif/$d "$@" 2>&1 | cut -c1-220
